@@ -15,6 +15,7 @@ import (
 	"golang.org/x/sys/unix"
 
 	"verif/sim/runner"
+	"verif/sim/vnet"
 	"verif/sim/vsched"
 	"verif/sim/vsys"
 )
@@ -75,6 +76,8 @@ type peerState struct {
 	connected    bool
 	refused      bool
 	startNow     bool
+	dialFd       int
+	dialAsked    bool
 }
 
 type asyncRec struct {
@@ -128,6 +131,11 @@ type World struct {
 	inCall           map[string]int // task -> the handler is inside a call into the framework (a nested OnClose is legal)
 	stopFailed       int
 	stopEventUsed    bool
+	stopEverAsked    bool
+	started          bool
+	regLost          []string
+	userFds          []int
+	dialQueue        []int
 	stopPending      int
 	nestedHandled    bool
 	otherShutdown    bool // a Shutdown action was returned by a callback
@@ -229,6 +237,8 @@ func (w *World) nonTrivial() bool {
 		return w.openedN > 0
 	case "C07":
 		return w.probes["fd-number-reused"] > 0 || w.closedN > 0
+	case "C19":
+		return w.probes["control-calls"] > 0
 	case "C18":
 		n := 0
 		for _, v := range w.faults {
@@ -334,6 +344,8 @@ func (w *World) run() {
 		w.peers = append(w.peers, &peerState{idx: i, cp: &p.Conns[i]})
 	}
 	w.addr, w.listenKey = w.protoAddr()
+	w.installDialHook()
+	defer func() { vnet.DialHook = nil }()
 
 	s.Go("run", func() {
 		err := gnet.Run(&handler{w}, w.addr, w.options()...)
@@ -498,6 +510,9 @@ func (w *World) peerEnabled(ps *peerState) bool {
 		return false
 	}
 	if !ps.connected {
+		if ps.cp.Dial {
+			return false // connected by a Register/Enroll call of a user task
+		}
 		if ps.refused || w.s.Step() < ps.cp.Start && !ps.startNow {
 			return false
 		}
@@ -643,6 +658,12 @@ func (w *World) onQuiescent(idle int) int {
 		progressed := false
 		for _, ps := range w.peers {
 			if ps.done {
+				continue
+			}
+			if !ps.connected && ps.cp.Dial {
+				// never dialled: nothing to wait for
+				ps.done = true
+				progressed = true
 				continue
 			}
 			if !ps.connected {
